@@ -25,6 +25,7 @@ import (
 	"cuelang.org/go/encoding/yaml"
 	"cuelang.org/go/internal/verif/canon"
 	"cuelang.org/go/internal/verif/core"
+	"cuelang.org/go/internal/verif/racelog"
 	"cuelang.org/go/internal/verif/sched"
 	"cuelang.org/go/internal/verif/shim/vsync"
 )
@@ -36,7 +37,7 @@ func init() {
 			"Non-trivial = scenarios with >=2 schedules and a call that takes the slow path of the label index (fresh labels per execution).",
 		Assumptions: []string{"scheduling points are the synchronisation operations of the instrumented files; plain memory accesses inside the evaluator are not interleaved by the explorer but are monitored by the race detector in the race pass (happens-before based, sound for the executed paths)",
 			"the race pass needs the binary built with -race (lib/build.sh does); without it the pass is reported as skipped and the run is not exhaustive"},
-		Run:         run, Replay: replay,
+		Run: run, Replay: replay,
 		RequireOutcomes: []string{"pair:ok"},
 		BudgetQuick:     240, BudgetThorough: 1500,
 		StallSeconds: 300,
@@ -80,6 +81,9 @@ type call struct {
 type decoded struct {
 	S map[string]any `json:"s"`
 	L []any          `json:"l"`
+	// M has no tag: the CUE field m matches it only through the decoder's
+	// case-insensitive fallback (a separate path through the shared field cache)
+	M any
 }
 
 func errClass(err error) string {
@@ -146,7 +150,7 @@ var calls = []call{
 	{"DecodeStruct", func(ctx *cue.Context, v cue.Value, id int64) string {
 		var d decoded
 		err := v.Decode(&d)
-		return fmt.Sprint(d.L, len(d.S), errClass(err))
+		return fmt.Sprint(d.L, len(d.S), d.M != nil, errClass(err))
 	}},
 	{"DecodeMap", func(ctx *cue.Context, v cue.Value, id int64) string {
 		var m map[string]any
@@ -381,43 +385,12 @@ func (w *vwg) wait() {
 
 // ---- race pass ----
 
-var raceLog = os.Getenv("VERIF_RACE_LOG")
-
-func raceReports() int {
-	if raceLog == "" {
-		return 0
-	}
-	n := 0
-	ents, _ := os.ReadDir(strings.TrimSuffix(raceLog, "/race") + "/")
-	for _, e := range ents {
-		if strings.HasPrefix(e.Name(), "race.") {
-			b, _ := os.ReadFile(strings.TrimSuffix(raceLog, "/race") + "/" + e.Name())
-			n += strings.Count(string(b), "WARNING: DATA RACE")
-		}
-	}
-	return n
-}
-
-func lastRaceReport() string {
-	ents, _ := os.ReadDir(strings.TrimSuffix(raceLog, "/race") + "/")
-	out := ""
-	for _, e := range ents {
-		if strings.HasPrefix(e.Name(), "race.") {
-			b, _ := os.ReadFile(strings.TrimSuffix(raceLog, "/race") + "/" + e.Name())
-			if i := strings.LastIndex(string(b), "WARNING: DATA RACE"); i >= 0 {
-				out = string(b[i:])
-			}
-		}
-	}
-	if len(out) > 5000 {
-		out = out[:5000]
-	}
-	return out
-}
-
 func racePair(r *core.Run, c kase) {
-	before := raceReports()
+	before := racelog.Reports()
 	for rep := 0; rep < 3; rep++ {
+		// cold process-wide caches for every repetition: a cache that is filled
+		// on first use is shared mutable state exactly once per key
+		vsync.ResetAllMaps()
 		ctx := cuecontext.New()
 		v := ctx.CompileString(programs[c.Value])
 		start := make(chan struct{})
@@ -436,25 +409,10 @@ func racePair(r *core.Run, c kase) {
 		wg.Wait()
 	}
 	r.Trans(3)
-	if n := raceReports() - before; n > 0 {
-		rep := lastRaceReport()
-		r.Violation(keyOf("data race: "+raceSite(rep), c), c, rep)
+	if n := racelog.Reports() - before; n > 0 {
+		rep := racelog.Last()
+		r.Violation(keyOf("data race: "+racelog.Key(rep), c), c, rep)
 		return
 	}
 	r.Outcome("race:none")
-}
-
-// raceSite extracts the first repository frame of a race report.
-func raceSite(rep string) string {
-	for _, l := range strings.Split(rep, "\n") {
-		l = strings.TrimSpace(l)
-		if strings.HasPrefix(l, "cuelang.org/go/") && !strings.Contains(l, "internal/verif") {
-			// e.g. cuelang.org/go/internal/core/runtime.(*index).IndexToString()
-			if i := strings.LastIndex(l, "("); i > 0 && strings.HasSuffix(l, ")") {
-				l = l[:i]
-			}
-			return l
-		}
-	}
-	return "unknown site"
 }
